@@ -592,7 +592,7 @@ def c01_6(ctx: Ctx) -> RuleResult:
                 continue
             n += 1
             u = used[0]
-            uargs = list(u[2])
+            uargs = list(u[2]) + [v_ for _k, v_ in u[3]]
             for name in ("failed_realizations", "objective_weights", "constraint_weights"):
                 ok = name in rk and rk[name] in uargs
                 res.add(m, call_, f"Realizations.{name} is the value passed to the function computation of the same result", ok,
